@@ -295,12 +295,13 @@ static int ex_lineno(char **num)
 		break;
 	case '\'':
 		if (lbuf_jump(xb, (unsigned char) *++(*num), &n, NULL))
-			return -1;
+			return -2;
 		++*num;
 		break;
 	case '/':
 	case '?':
-		n = ex_search(num);
+		if ((n = ex_search(num)) < 0)
+			return -2;
 		break;
 	default:
 		if (isdigit((unsigned char) **num)) {
